@@ -89,6 +89,8 @@ def gen_script(rng, schema, hid, nadv):
     L = prefix(schema)
     crates = ["a", "b", "c", "d", "x", "y"]
     tracks = ["t1", "t2", "tx"]
+    if rng.random() < 0.5:
+        L[1] += " +alias"      # harness only: two handle objects per variable, calls alternate between them
     for j in range(nadv):
         L.append(adversarial(rng, hid * 1000 + j, crates, tracks))
     return L + K.moved_subtree_probe("mkroot") + K.failed_call_probe()
